@@ -147,7 +147,7 @@ func runScenario(m *mon.M, r *rand.Rand, sc scenario) {
 	ns.opts = opts
 	n, err := hnet.New(opts)
 	if err != nil {
-		m.Violation("harness-start", err.Error(), map[string]any{"net": sc.name})
+		m.Inconclusive("harness did not start: " + err.Error())
 		return
 	}
 	defer n.Stop()
